@@ -399,7 +399,7 @@ class RenderIterator:
             if isinstance(padding, AlignedPadding) and padding.relative
             else padding
         )
-        self._padded_size = padding.get_padded_size(self._renderable_data.size)
+        self._padded_size = self._padding.get_padded_size(self._renderable_data.size)
 
     def set_render_args(self, render_args: RenderArgs) -> None:
         """Sets the render arguments.
